@@ -352,3 +352,26 @@ for _fn, _cls, _svc in [('saml2_tophat.server:Server.parse_authn_request', 'Auth
                        '*.attribute_converters', '*.binding', '*.relay_state', '*.signature_check'],
              clauses_from={'C10': ['C10-parsed-and-valid', 'C10-unsigned-refused-when-signatures-wanted', 'C10-present-signature-verified',
                                    'C10-issue-instant'], 'C06': ['C06-version']})
+
+
+# ================================================================================================ C17 (IdP side): Entity._encrypt_assertion
+ghost('md_enc_certs', ['Val', 'Val'], 'Seq')    # encryption certificates the metadata store holds for an entity id (C16)
+contract('saml2_tophat.sigver:SecurityContext.encrypt_assertion', inline=True)
+contract('saml2_tophat.sigver:pre_encryption_part', trusted=True, pure=True, params=['msg_enc', 'key_enc', 'key_name'],
+         defaults={'msg_enc': None, 'key_enc': None, 'key_name': None}, returns='Any', note='template element (builder code)')
+# (MetaData.certs: abstract contract in c_sigver.py, with the encryption clause)
+_RESP_T = "Union(Str, Inst('saml2_tophat:SamlBase'))"
+contract(ENT + '._encrypt_assertion',
+         types={'encrypt_cert': 'Opt(Str)', 'sp_entity_id': 'Opt(Str)', 'response': _RESP_T, 'node_xpath': 'Opt(Str)'}, returns=_RESP_T,
+         ensures=[# C17: when the SP has an encryption certificate (given, or in metadata), what is handed back is the (non-empty)
+                  # output of the encryption tool -- never the text / object that was passed in
+                  ('C17-never-the-clear-response-when-a-certificate-exists',
+                   'implies(truthy(encrypt_cert) or (sp_entity_id is not None and len(md_enc_certs(self.metadata, sp_entity_id)) > 0), '
+                   'is_str(result) and exists(lambda o: is_bytes(o) and len(bytes_of(o)) > 0 and str_of(result) == unutf8(bytes_of(o)), "Val"))'),
+                  ('no-certificate-no-change', 'implies(not truthy(encrypt_cert) and (sp_entity_id is None or len(md_enc_certs(self.metadata, sp_entity_id)) == 0), '
+                                               'result == response)')],
+         raises={'Exception': 'True'}, modifies=[],
+         local_types={'_certs': 'List(Str)', 'exception': "Opt(Inst('builtins:BaseException'))"},
+         lets={'R0': 'response'},
+         loops={0: {'inv': ['implies(i0 == 0, exception is None)', 'implies(i0 > 0, exception is not None)', 'response == R0'], 'modifies': []}},
+         clauses_from={'C17': ['C17-never-the-clear-response-when-a-certificate-exists']})
